@@ -164,7 +164,7 @@ type State struct {
 	facts  map[string]Lin
 	neq    map[string]Lin
 	nonnil map[interface{}]bool
-	truth  map[interface{}]bool // boolean SSA values with known truth value
+	truth  map[interface{}]bool   // boolean SSA values with known truth value
 	nnPath map[string]interface{} // memory locations (access-path key -> path) currently holding a non-nil value
 	cfacts []cfact                // guarded facts kept across joins (see condfacts.go)
 }
